@@ -10,11 +10,13 @@
 (* demands.                                                                  *)
 EXTENDS NflogConc
 
-CONSTANTS Keys, MaxTime, MaxCalls, RemoteRetention, GCMode
+CONSTANTS Keys, MaxTime, MaxCalls, RemoteRetention, GCMode,
+          Payloads     \* Payloads1 (quick) or Payloads2
 
 VARIABLE calls
 
-Payloads == { [f |-> {1}, r |-> {}, d |-> "none"], [f |-> {}, r |-> {1}, d |-> "str"] }
+Payloads1 == { [f |-> {1}, r |-> {}, d |-> "none"] }
+Payloads2 == { [f |-> {1}, r |-> {}, d |-> "none"], [f |-> {}, r |-> {1}, d |-> "str"] }
 Expiries == {0, 2}
 RemoteTs == {t \in 0 .. MaxTime : t % 2 = 1}
 Pool == { [k |-> k, ts |-> ts, exp |-> ts + RemoteRetention, f |-> {3}, r |-> {}, d |-> "int"]
